@@ -222,6 +222,20 @@ CHECKS = {
              'pyproj are trusted references for the np- streams.',
         technique='Lean 4 proof (rounding and divmod arithmetic, decimal-string lemmas) + differential correspondence on exact strings + library-backed round-trip tests',
         design='§6 C19'),
+    'C13': dict(
+        text='Lean 4 theorems over a hand-written model of the WKT writers and readers: for every well-formed shape (all six kinds, any number '
+             'of parts, holes and vertices, any float type whose print/parse round-trips) parse_wkt(s.to_wkt()) and Type.from_wkt(s.to_wkt()) '
+             'return the identical shape, end to end through the rendered text, a lenient lexer/parser (text_roundtrip proved in full), the '
+             'keyword dispatch and the constructor orientation normalisation; the library __eq__ is reflexive; non-simple shapes write their '
+             'polygon form; unknown, lower-case or wrongly-typed text raises ValueError (dispatch map regenerated from parsers.py and '
+             're-checked by the kernel). Tied to the code by differential streams: text written, text read back, and ALL single-character '
+             'corruptions of seed texts (result in {ValueError, what the text denotes}).',
+        note='Trusted: Lean kernel and Mathlib; CPython float(str(x)) == x is the theorems only hypothesis; the WKT regexes are not modelled, '
+             'only their observable result on generated and corrupted texts is compared; shapely/GEOS decides what is malformed (np- support '
+             'streams only). Excluded by the decidable well-formedness hypothesis and shown necessary by counter-theorems: zero-area holes, '
+             'M without Z, mixed 2-D/3-D vertices.',
+        technique='Lean 4 proof (structural induction, shoelace-reversal lemma, lexer/parser inversion) + exhaustive single-character-corruption and seeded differential correspondence + exact-rational oracle + shapely as independent reader',
+        design='§6 C13'),
     'C06': dict(
         text='Lean 4 theorems: every TimeInterval operator of the model equals the dense-time set model '
              '[start,end) / {start} for all intervals and instants (membership, subset, superset, disjoint, '
